@@ -106,8 +106,10 @@ theorem c02_set_is_listed_without_default (sd : StructDef) (fs : List (Int × Va
   cases lookupVal fs f.id <;> rfl
 
 /-- DEFAULTS, optional: a field that is optional (or a union's) and has a default `dv` of base / enum /
-string / binary type is a non-pointer Go field holding `x` = its listed value, or `dv` when the value
-does not list it. It is on the wire iff `x ≠ dv`, and then it carries `x`. -/
+string / binary type is a non-pointer Go field holding its listed value `x` (or `dv` when the value does
+not list it). It is on the wire iff it is listed with a value that Go's `!=` tells from `dv`
+(`goEq x dv = false`: inequality — `c02_default_differs_off_doubles` — except on doubles, where it is the
+float comparison, `c02_default_double_compare`), and then it carries `x`. -/
 theorem c02_default_optional_iff_differs (d : Defs) (n : Nat) (t : Ty) (nm : String) (sd : StructDef)
     (fs : List (Int × Val)) (es : List Event)
     (hres : resolve d t = .struct nm) (hsd : lookupStruct d nm = some sd)
@@ -115,9 +117,9 @@ theorem c02_default_optional_iff_differs (d : Defs) (n : Nat) (t : Ty) (nm : Str
     ∃ cs : List (List Event), es = [.sb sd.name] ++ cs.flatten ++ [.fs, .se] ∧
       All2 (fun (f : Field) (c : List Event) =>
         ∀ dv, (f.req = .optional ∨ sd.kind = .union) → f.dflt = some dv → dv.scalar = true →
-          (c ≠ [] ↔ (lookupVal fs f.id).getD dv ≠ dv) ∧
-          ((lookupVal fs f.id).getD dv ≠ dv → ∃ body, encV d n f.ty ((lookupVal fs f.id).getD dv) = .ok body ∧
-            c = [.fb f.name (wireOf d f.ty) f.id] ++ body ++ [.fe])) sd.fields cs := by
+          (c ≠ [] ↔ ∃ x, lookupVal fs f.id = some x ∧ goEq x dv = false) ∧
+          (∀ x, lookupVal fs f.id = some x → goEq x dv = false →
+            ∃ body, encV d n f.ty x = .ok body ∧ c = [.fb f.name (wireOf d f.ty) f.id] ++ body ++ [.fe])) sd.fields cs := by
   obtain ⟨cs, hes, hall⟩ := encV_struct_chunks d n t nm sd fs es hres hsd henc
   refine ⟨cs, hes, All2.imp ?_ hall⟩
   intro f c hx dv hopt hd hsc
@@ -126,10 +128,9 @@ theorem c02_default_optional_iff_differs (d : Defs) (n : Nat) (t : Ty) (nm : Str
   | none =>
     simp only [hl, if_pos hopt] at hx
     cases hx
-    simp
+    exact ⟨⟨fun h => absurd rfl h, fun ⟨x, hx, _⟩ => by cases hx⟩, fun x hx => by cases hx⟩
   | some x =>
     simp only [hl] at hx
-    simp only [Option.getD_some]
     have hiff := isSetVal_default sd f x dv hopt hd hsc
     by_cases hs : isSetVal sd f x = true
     · rw [if_pos hs] at hx
@@ -137,13 +138,62 @@ theorem c02_default_optional_iff_differs (d : Defs) (n : Nat) (t : Ty) (nm : Str
       split at hx
       · rename_i body hbody
         cases hx
-        exact ⟨⟨fun _ => hne, fun _ => by simp⟩, fun _ => ⟨body, hbody, rfl⟩⟩
+        refine ⟨⟨fun _ => ⟨x, rfl, hne⟩, fun _ => by simp⟩, fun y hy _ => ?_⟩
+        cases hy; exact ⟨body, hbody, rfl⟩
       · cases hx
       · cases hx
     · rw [if_neg hs] at hx
       cases hx
-      have heq : ¬ x ≠ dv := fun h => hs (hiff.mpr h)
-      exact ⟨⟨fun h => absurd rfl h, fun h => absurd h heq⟩, fun h => absurd h heq⟩
+      have heq : ¬ goEq x dv = false := fun h => hs (hiff.mpr h)
+      refine ⟨⟨fun h => absurd rfl h, fun ⟨y, hy, hg⟩ => ?_⟩, fun y hy hg => ?_⟩
+      · cases hy; exact absurd hg heq
+      · cases hy; exact absurd hg heq
+
+/-- Off the doubles (bool, integers, enums, string, binary defaults) "Go's `!=` tells them apart" is plain
+inequality of the values. -/
+theorem c02_default_differs_off_doubles (x dv : Val) (h : ∀ b, dv ≠ .dbl b) : goEq x dv = false ↔ x ≠ dv := by
+  have hi := goEq_iff_of_not_dbl x dv h
+  constructor
+  · intro hf e; rw [hi.mpr e] at hf; cases hf
+  · intro hne
+    cases hg : goEq x dv with
+    | false => rfl
+    | true => exact absurd (hi.mp hg) hne
+
+/-- On doubles the emitted `p.F != T_F_DEFAULT` is Go's float comparison of the IEEE bit patterns `a`
+(the field) and `b` (the default): the field is SET iff one of them is a NaN, or they are different
+bits that are not both zeros. So a NaN is always set (and written), -0.0 against a 0.0 default (and
++0.0 against -0.0) is NOT set and reads back as the default, and every other bit pattern different from
+the default's — one ulp away, a subnormal, an infinity — is set. -/
+theorem c02_default_double_compare (a b : Nat) :
+    (goEq (.dbl a) (.dbl b) = false ↔
+      dblIsNaN a = true ∨ dblIsNaN b = true ∨ (a ≠ b ∧ (dblIsZero a = false ∨ dblIsZero b = false))) ∧
+    (dblIsNaN a = true → goEq (.dbl a) (.dbl b) = false) ∧
+    goEq (.dbl 9223372036854775808) (.dbl 0) = true ∧ goEq (.dbl 0) (.dbl 9223372036854775808) = true := by
+  refine ⟨?_, fun h => dblEq_nan_left a b h, dblEq_zeros.2, dblEq_zeros.1⟩
+  rw [goEq_dbl]
+  constructor
+  · intro h
+    cases hna : dblIsNaN a with
+    | true => exact Or.inl rfl
+    | false =>
+      cases hnb : dblIsNaN b with
+      | true => exact Or.inr (Or.inl rfl)
+      | false =>
+        right; right
+        have hn : ¬ (dblIsNaN a = false ∧ dblIsNaN b = false ∧ ((dblIsZero a = true ∧ dblIsZero b = true) ∨ a = b)) := by
+          rw [← dblEq_iff]; rw [h]; simp
+        refine ⟨fun e => hn ⟨hna, hnb, Or.inr e⟩, ?_⟩
+        cases hza : dblIsZero a with
+        | false => exact Or.inl rfl
+        | true =>
+          cases hzb : dblIsZero b with
+          | false => exact Or.inr rfl
+          | true => exact absurd ⟨hna, hnb, Or.inl ⟨hza, hzb⟩⟩ hn
+  · rintro (h | h | ⟨hne, hz⟩)
+    · exact dblEq_nan_left a b h
+    · exact dblEq_nan_right a b h
+    · exact dblEq_ne a b hne hz
 
 /-- DEFAULTS, required / default requiredness: a field that is not optional and has a default `dv` is
 ALWAYS written, whatever the value: it carries the listed value, or `dv` (the constructor's default)
@@ -338,7 +388,7 @@ example : (encV exDefs 8 (.struct "m/Outer") exVal).isOk = true := by decide +ke
 
 example : WT exDefs 8 (.struct "m/Outer") exVal := by
   simp [WT, exDefs, exVal, resolve, resolveN, lookupTypedef, lookupStruct, normFields, readState, isSetVal, cmpDflt,
-    Val.scalar, Val.beq, lookupVal]
+    Val.scalar, goEq, Val.beq, lookupVal]
 
 /-- `Inner.n = 5` (its default): `IsSetN()` is false and the field is not written — the same calls as
 for the value that does not list it; `n = 6` is written. -/
